@@ -92,6 +92,12 @@ pub(crate) struct Xfer {
     pub client_close: bool,
     /// how the backend paces this exchange (buffer sizes come from its listener)
     pub backend_prog: IoProgram,
+    /// H2 client: cancel the stream (RST_STREAM CANCEL) once this many response body bytes have
+    /// arrived; no WINDOW_UPDATE is sent for the stream, so most of the response is still on the
+    /// backend socket at that point
+    pub cancel_after: Option<u64>,
+    /// the exchange follows a cancelled one on the same client connection and the same cluster
+    pub after_cancel: bool,
 }
 
 impl Xfer {
@@ -109,7 +115,7 @@ impl Xfer {
             "req_framing": self.req_framing.describe(), "resp_framing": self.resp_framing.describe(),
             "mode": format!("{:?}", self.mode), "backend": self.backend,
             "req_fill": self.req_fill, "resp_fill": self.resp_fill, "client_close": self.client_close,
-            "backend_prog": self.backend_prog.describe()})
+            "backend_prog": self.backend_prog.describe(), "cancel_after": self.cancel_after, "after_cancel": self.after_cancel})
     }
 }
 
@@ -178,6 +184,8 @@ pub(crate) struct ClientObs {
     pub from_backend: bool,
     pub resp: SideObs,
     pub stalled: bool,
+    /// the client cancelled the stream itself (RST_STREAM CANCEL) as planned
+    pub cancelled: bool,
     /// the failure recorded in `resp.error` hit the whole H2 connection (GOAWAY with an error,
     /// connection closed / reset, undecodable frames), not this stream alone
     pub conn_level: bool,
@@ -517,6 +525,8 @@ fn gen_xfer(rng: &mut Rng, key: u64, cfg: &CellCfg, sz: &Sizes, front: Front, ba
         resp_fill: fill(rng),
         client_close,
         backend_prog,
+        cancel_after: None,
+        after_cancel: false,
     }
 }
 
@@ -647,8 +657,52 @@ fn gen_cell(ctx: &Ctx, case: u64) -> CellPlan {
         }
         conns.push(ConnPlan { idx, front, prog, xfers, seed: rng.next_u64(), theme });
     }
+    // class "cancel mid-download then reuse" (half of the cells, one connection, run first): an
+    // H2 client asks one H1 keep-alive backend for a large response A with a small stream window
+    // and no WINDOW_UPDATE, cancels A after the head, then sends B and C to the same cluster on the
+    // same connection. Whatever sozu does with the backend connection that still carries the rest
+    // of A, B and C must get exactly their own bodies. Own random stream: the other connections of
+    // the cell are the same with or without this class.
+    let mut crng = Rng::for_case(ctx.seed, 7, case);
+    if with_h2 && ctx.opt("cancel_reuse") != Some("off") && crng.chance(1, 2) {
+        let backend = crng.usize_below(2); // the two H1 backends
+        let mut xfers = Vec::new();
+        for j in 0..3 {
+            let key = (case << 24) | n;
+            n += 1;
+            let mut x = gen_xfer(&mut crng, key, &cfg, &sz, Front::H2Tls, backend, false, false, 1);
+            x.mode = Mode::Normal;
+            x.resp_framing = RespFraming::Cl { close: false };
+            match j {
+                0 => {
+                    x.req_framing = ReqFraming::NoBody;
+                    x.req_size = 0;
+                    x.resp_size = crng.range(1 << 20, 4 << 20);
+                    x.cancel_after = Some(*crng.pick(&[0u64, 1, 100, 4096, 12000]));
+                }
+                1 => {
+                    x.req_framing = ReqFraming::NoBody;
+                    x.req_size = 0;
+                    x.resp_size = gen_size(&mut crng, cfg.buffer_size, 70_000, 70_000, false).max(16);
+                    x.after_cancel = true;
+                }
+                _ => {
+                    x.req_framing = ReqFraming::H2(H2Shape { frame_sizes: vec![0], padding: false, empty_frames: false, end: H2End::OnLast, content_length: true });
+                    x.req_size = gen_size(&mut crng, cfg.buffer_size, 70_000, 70_000, false).max(16);
+                    x.resp_size = crng.range(16, 2000);
+                    x.after_cancel = true;
+                }
+            }
+            xfers.push(x);
+        }
+        let mut prog = gen_prog(&mut crng);
+        prog.read_pause_us = prog.read_pause_us.min(500);
+        conns.insert(0, ConnPlan { idx: n_conns, front: Front::H2Tls, prog, xfers, seed: crng.next_u64(), theme: CANCEL_REUSE.to_owned() });
+    }
     CellPlan { case, cfg, conns }
 }
+
+pub(crate) const CANCEL_REUSE: &str = "cancel-reuse";
 
 // ---------------------------------------------------------------------------------------------
 // running a cell
@@ -976,6 +1030,32 @@ impl Judge<'_> {
         let mut judged = false;
         let mut violated = false;
 
+        // --- class "cancel mid-download then reuse"
+        if c.cancelled && c.resp.mismatch.is_none() {
+            rep.obs("cancel_reuse/streams_cancelled_mid_download", 1);
+            rep.obs("exempt/stream_cancelled_by_the_client_as_planned", 1);
+            return false;
+        }
+        if x.after_cancel && !c.stalled {
+            let up_ok = !x.req_framing.has_body() || o.back.as_ref().is_some_and(|b| b.req.ended && b.req.bytes == x.req_size && b.req.mismatch.is_none());
+            let down_ok = c.from_backend && c.resp.ended && c.resp.bytes == x.resp_size && c.resp.mismatch.is_none();
+            if up_ok && down_ok {
+                rep.obs("cancel_reuse/exchanges_after_cancel_ok", 1);
+                if o.back.as_ref().is_some_and(|b| b.nth_on_conn > 0) {
+                    rep.obs("cancel_reuse/exchange_after_cancel_on_a_reused_backend_connection", 1);
+                }
+            } else if c.resp.mismatch.is_none() && !o.back.as_ref().is_some_and(|b| b.req.mismatch.is_some()) {
+                // the backend is healthy and willing, the client sent a complete request on a
+                // connection that works: this exchange has no reason to fail but what sozu did with
+                // the cancelled one
+                let sig = format!("bodies/not_delivered_after_cancel/{pair}");
+                rep.violation(&sig, &format!("after the client cancelled a download (RST_STREAM CANCEL) with most of that response still unread on the backend connection, the next exchange to the same cluster on the same client connection did not complete: status {:?}, from backend {}, response body {}/{} bytes, error {:?}; request body at the backend {:?}/{}",
+                    c.status, c.from_backend, c.resp.bytes, x.resp_size, c.resp.error, o.back.as_ref().map(|b| b.req.bytes), x.req_size),
+                    witness(self.ctx, self.plan, o, json!({"streams_of_connection": self.plan.conns.iter().find(|cp| cp.idx == o.conn).map(|cp| cp.xfers.iter().map(|x| x.json()).collect::<Vec<_>>())})));
+                return true;
+            }
+        }
+
         // --- an H2 connection that stalls: one candidate per connection
         if c.conn_level && c.stalled {
             let theme = self.plan.conns.iter().find(|cp| cp.idx == o.conn).map(|cp| cp.theme.clone()).unwrap_or_default();
@@ -1039,7 +1119,8 @@ impl Judge<'_> {
                 rep.obs("exempt/h1_early_response_bytes_after_complete_body", 1);
             } else if c.from_backend {
                 let ident = wire::identify(&m.actual, &candidates(self.plan));
-                let sig = format!("bodies/corrupt/{pair}/download/{}", sig_down(x));
+                let foreign = wire::identify_msg(&m.actual, &candidates(self.plan)).is_some_and(|(msg, ..)| msg != x.resp_msg);
+                let sig = format!("bodies/{}/{pair}/download/{}", if foreign { "cross_delivered" } else { "corrupt" }, sig_down(x));
                 rep.violation(&sig, &format!("response body differs from what the backend sent at offset {} of message {} ({} bytes): expected {} got {}{}",
                     m.off, x.resp_msg, x.resp_size, hex::encode(&m.expected), hex::encode(&m.actual),
                     ident.as_ref().map(|s| format!(" — {s}")).unwrap_or_default()),
@@ -1050,7 +1131,8 @@ impl Judge<'_> {
         if let Some(b) = &o.back {
             if let Some(m) = &b.req.mismatch {
                 let ident = wire::identify(&m.actual, &candidates(self.plan));
-                let sig = format!("bodies/corrupt/{pair}/upload/{}", sig_up(x));
+                let foreign = wire::identify_msg(&m.actual, &candidates(self.plan)).is_some_and(|(msg, ..)| msg != x.req_msg);
+                let sig = format!("bodies/{}/{pair}/upload/{}", if foreign { "cross_delivered" } else { "corrupt" }, sig_up(x));
                 rep.violation(&sig, &format!("request body differs from what the client sent at offset {} of message {} ({} bytes): expected {} got {}{}",
                     m.off, x.req_msg, x.req_size, hex::encode(&m.expected), hex::encode(&m.actual),
                     ident.as_ref().map(|s| format!(" — {s}")).unwrap_or_default()),
@@ -1374,6 +1456,9 @@ fn run_case(ctx: &Ctx, case: u64, globals: &Globals, only_conn: Option<usize>, o
                 json!({"case": case, "seed": ctx.seed, "panic": p.message, "location": p.location, "cell": plan.cfg.json()}));
         }
     }
+    if only_conn.is_none() {
+        rep.obs("cancel_reuse/connections_planned", plan.conns.iter().filter(|c| c.theme == CANCEL_REUSE).count() as u64);
+    }
     let judge = Judge { ctx, plan: &plan, globals, rerun, killed_reported: Default::default() };
     for o in &outcomes {
         let judged = judge.judge(o, rep);
@@ -1404,7 +1489,7 @@ fn run_case(ctx: &Ctx, case: u64, globals: &Globals, only_conn: Option<usize>, o
 pub fn run(ctx: &Ctx) -> Report {
     let mut rep = Report::new(
         "exploration",
-        "cells = one sozu worker (tight: buffer_size 16393, small pool, shrunk socket buffers via knobs / default) + scripted H1 (and h2c) backends; per cell ~12 client connections (H1/TCP, H1/TLS, H2/TLS) with 1..8 keep-alive exchanges or 1..32 concurrent streams; each exchange draws direction (upload/download/both/early response), framings (Content-Length, chunked with boundary chunk sizes, extensions, trailers, close-delimited HTTP/1.0 and Connection: close, H2 DATA padded/empty/END_STREAM variants), boundary-biased sizes and an I/O program per socket; a case is one exchange, non-trivial when it was judged by the receiver-side oracles (not exempted), distinct = (pair, direction, framings, size buckets, I/O programs)",
+        "cells = one sozu worker (tight: buffer_size 16393, small pool, shrunk socket buffers via knobs / default) + scripted H1 (and h2c) backends; per cell ~12 client connections (H1/TCP, H1/TLS, H2/TLS) with 1..8 keep-alive exchanges or 1..32 concurrent streams; plus, in half of the cells, one H2 connection of the class 'cancel mid-download then reuse' (large response with a closed stream window, RST_STREAM CANCEL after the head, then two more exchanges to the same H1 keep-alive backend on the same connection); each exchange draws direction (upload/download/both/early response), framings (Content-Length, chunked with boundary chunk sizes, extensions, trailers, close-delimited HTTP/1.0 and Connection: close, H2 DATA padded/empty/END_STREAM variants), boundary-biased sizes and an I/O program per socket; a case is one exchange, non-trivial when it was judged by the receiver-side oracles (not exempted), distinct = (pair, direction, framings, size buckets, I/O programs)",
     );
     rep.assume("loopback TCP: the kernel never reorders or corrupts; only segmentation, pacing and buffer sizes are provoked");
     rep.assume("chunk extensions and H1 trailers need not be forwarded (docs are silent): only body bytes and clean termination are judged; what happened to trailers is counted");
@@ -1484,6 +1569,10 @@ pub fn run(ctx: &Ctx) -> Report {
     if h2_available() && ctx.opt("h2") != Some("off") {
         for k in h2run::required_keys() {
             required.push(k);
+        }
+        if ctx.opt("cancel_reuse") != Some("off") {
+            required.push("cancel_reuse/streams_cancelled_mid_download".into());
+            required.push("cancel_reuse/exchanges_after_cancel_ok".into());
         }
     }
     if ctx.opt("norequire").is_none() {
